@@ -251,67 +251,3 @@ Proof.
   apply filter_In. split; [exact Hin|]. rewrite Hr. exact Hp.
 Qed.
 
-(* ------------------------------------------------------------------ *)
-(* C04: finite obligations *)
-From FendV Require Import Units.Standards.
-From Coq Require Import QArith.
-Close Scope Q_scope.
-Open Scope N_scope.
-
-Lemma scales_nonzero_b : forallb chk_scale_nonzero all_names = true.
-Proof. vm_compute. reflexivity. Qed.
-
-Lemma standards_b :
-  forallb (fun e => chk_standard e || mem_str (fst (fst e)) known_standards) standards = true.
-Proof. vm_compute. reflexivity. Qed.
-
-Lemma scales_nonzero n : In n all_names ->
-  exists q, impl_quantity n = Some q /\ real_is_zero (q_scale q) = false.
-Proof.
-  intro H. pose proof (proj1 (forallb_forall _ _) scales_nonzero_b _ H) as Hc.
-  unfold chk_scale_nonzero in Hc. destruct (impl_quantity n) as [q|]; [|discriminate].
-  exists q. split; [reflexivity|]. destruct (real_is_zero (q_scale q)); [discriminate|reflexivity].
-Qed.
-
-Lemma standards_hold n f dims r :
-  In (n, f, dims) standards -> impl_entry n = Some r -> mem_str n known_standards = false ->
-  exists q, impl_quantity n = Some q /\ hmap_eqb dims (q_dim q) = true /\ q_exact q = true
-            /\ real_eqb f (q_scale q) = true.
-Proof.
-  intros Hin He Hk.
-  pose proof (proj1 (forallb_forall _ _) standards_b _ Hin) as Hc. cbn [fst] in Hc.
-  rewrite Hk, orb_false_r in Hc. unfold chk_standard in Hc. rewrite He in Hc.
-  destruct (impl_quantity n) as [q|]; [|discriminate].
-  apply andb_true_iff in Hc. destruct Hc as [Hc H3]. apply andb_true_iff in Hc. destruct Hc as [H1 H2].
-  exists q. auto.
-Qed.
-
-(* temperatures: affine with `to` on a plain temperature (273.15 = 5463/20) ... *)
-Lemma temperature_points :
-  conv_q 0 n_degC n_degF = Some (Qmake 32 1) /\
-  conv_q (Qmake 32 1) n_degF n_K = Some (Qmake 5463 20) /\
-  conv_q 0 n_degC n_K = Some (Qmake 5463 20) /\
-  conv_q (Qmake 100 1) n_degC n_degF = Some (Qmake 212 1) /\
-  conv_q (Qmake (-40) 1) n_degC n_degF = Some (Qmake (-40) 1) /\
-  conv_q 0 n_K n_degC = Some (Qmake (-5463) 20) /\
-  conv_q 0 n_K n_degF = Some (Qmake (-45967) 100) /\
-  conv_q (Qmake 49167 100) n_degR n_K = Some (Qmake 5463 20) /\
-  conv_q 1 n_kilocelsius n_K = Some (Qmake 25463 20).
-Proof. vm_compute. repeat split. Qed.
-
-(* ... and by scale only inside sums and compound units *)
-Lemma temperature_scale_only :
-  add_q 1 n_degC 1 n_K = Some (Qmake 2 1) /\
-  add_q (Qmake 10 1) n_degC (Qmake 9 1) n_degF = Some (Qmake 15 1) /\
-  add_q (Qmake 10 1) n_K 1 n_degC = Some (Qmake 11 1) /\
-  conv_per_q 1 n_J n_J n_degC = Some (Qmake 1 1) /\
-  conv_per_q (Qmake 9 1) n_J n_J n_degF = Some (Qmake 9 1).
-Proof. vm_compute. repeat split. Qed.
-
-(* ------------------------------------------------------------------ *)
-(* C05: finite obligation *)
-Lemma reduced_agrees_b : forallb chk_reduced_agrees all_names = true.
-Proof. vm_compute. reflexivity. Qed.
-
-Lemma reduced_agrees n : In n all_names -> chk_reduced_agrees n = true.
-Proof. apply (proj1 (forallb_forall _ _) reduced_agrees_b). Qed.
